@@ -278,7 +278,8 @@ def run(pid, tier, out):
     hstats = {'evaluations': 0, 'status': collections.Counter(), 'ops': collections.Counter(), 'distinct': set()}
     hits = []
     n_hist, n_ops = (24, 30) if tier == 'quick' else (600, 40)
-    cases = checks_seq.run_stream('C15', n_hist, n_ops, seed + 15, 'default', hstats, hits)
+    cases = checks_seq.run_stream('C15', n_hist // 2, n_ops, seed + 15, 'default', hstats, hits)
+    cases += checks_seq.run_stream('C15', n_hist - n_hist // 2, n_ops, seed + 1515, 'names', hstats, hits)
     disagreements = []
     corr_error = None
     model_ok = all(common.vo_fresh(d) for d in checks_seq.MODEL)
